@@ -71,7 +71,9 @@ theorem fact_jar_ldproof :
     Facts.C17.ldProofVerifyErrConds =
       ["err != nil", "err != nil", "err != nil", "err != nil", "len(splittedJws) != 2", "err != nil",
        "err = jswVerifier.Verify([]byte(challenge), sig, key); err != nil"] ∧
-    "nutsCrypto.SignatureAlgorithm" ∈ Facts.C17.ldProofVerifyCalls := by decide
+    "nutsCrypto.SignatureAlgorithm" ∈ Facts.C17.ldProofVerifyCalls ∧
+    Facts.C17.vcJwtSignatureErrConds = ["err != nil", "at == nil", "err != nil", "keyID != \"\" && strings.Split(keyID, \"#\")[0] != issuer"] ∧
+    "crypto.ParseJWT" ∈ Facts.C17.vcJwtSignatureCalls := by decide
 
 /-! ### The uniform statement -/
 
@@ -209,6 +211,17 @@ theorem accept_jar (E : Env) (J : JarEnv) (j : Jws) (vs : List Verified)
   obtain ⟨hp, hcid, hck⟩ := jar_accept h
   obtain ⟨s, v, hs, hv, hidx, halg, hal, hasym, hov, hsrc, hres, hver⟩ := accept_parseJWT E j vs hp
   exact ⟨s, v, hs, hv, hidx, halg, hal, hasym, hov, hsrc, hres, hver, hck s v hs hv hsrc, hcid⟩
+
+/-- VC / VP in JWT format (signature_verifier.jwtSignature): ParseJWT's discipline with the DID key resolver (an absent
+    kid resolves the issuer's key), and a present kid belongs to the issuer -/
+theorem accept_vcJwt (E : Env) (issuer : String) (didOf : String → String) (j : Jws) (vs : List Verified)
+    (h : vcJwtSignature Facts.C17.supportedAlgs E issuer didOf j = .accept vs) :
+    Disciplined Facts.C17.supportedAlgs j vs (fun s v =>
+      E.resolve (if s.kid = "" then issuer else s.kid) = some v.key ∧ E.verifies v.key s.alg 0 = true ∧
+      (s.kid ≠ "" → didOf s.kid = issuer)) := by
+  obtain ⟨hp, hiss⟩ := vcJwt_accept h
+  obtain ⟨s, v, hs, hv, hidx, halg, hal, hasym, hov, _, hres, hver⟩ := accept_parseJWT _ j vs hp
+  exact ⟨s, v, hs, hv, hidx, halg, hal, hasym, hov, hres, hver, hiss s hs⟩
 
 /-- LDProof.Verify: one verification with the caller's key; the algorithm is the one derived from that key (so it
     fits the key and, by the regenerated list of constants `SignatureAlgorithm` can return, is asymmetric); the
